@@ -214,7 +214,7 @@ theorem C02_flush_set_bin_value_fails : flushes .bin = false := rfl
 
 /-! ## non-vacuity -/
 
-theorem exLayout_WF (o : Order) (cv ct : Bool) : (exLayout o cv ct).WF where
+theorem C02_example_layout_WF (o : Order) (cv ct : Bool) : (exLayout o cv ct).WF where
   segNodup := by simp [exLayout]
   segMem := by intro s; simp [exLayout]; omega
   tofMem := by intro _ k; simp [exLayout]; omega
@@ -225,7 +225,7 @@ theorem exLayout_WF (o : Order) (cv ct : Bool) : (exLayout o cv ct).WF where
   sizePos := by simp [exLayout]
   off3d := by intro _; simp [exLayout, totalAx]
 
-theorem exLayout_Pos (o : Order) (cv ct : Bool) : (exLayout o cv ct).Pos where
+theorem C02_example_layout_Pos (o : Order) (cv ct : Bool) : (exLayout o cv ct).Pos where
   views := by simp [exLayout]
   tang := by simp [exLayout]
   ax := by intro s _; simp only [exLayout]; split <;> omega
